@@ -3,6 +3,7 @@ import SlotVerif.Driver.SlotDrv
 import SlotVerif.Driver.ShapeDrv
 import SlotVerif.Driver.ParseDrv
 import SlotVerif.Driver.GroupDrv
+import SlotVerif.Driver.EgDrv
 /-! `svdriver`: reads one case per line `<suite> <body>`, prints one answer line per case. -/
 open SV.Drv
 
@@ -17,6 +18,7 @@ def dispatch (line : String) : String :=
     | "shape" => shapeRun body
     | "parse" => parseRun body
     | "grp" => grpRun body
+    | "eg" => egRun body
     | _ => "bad-suite"
   | [] => "bad-line"
 
